@@ -44,7 +44,7 @@ InMode(d) == Mode = "diag" => d.hf = "html"
 VARIABLE c
 Root == Dim("root", "", "", "", 0, "", FALSE)
 Init == c = Root
-\* Mode: "noexport" = model check only; "exportonly" = write cases.ndjson only; anything else = both
+\* Mode: "noexport" / "all" (+ theorem T4) / "diag" (HTML hosts only) = model check only; "exportonly" = write cases.ndjson only
 Next == /\ Mode # "exportonly"
         /\ IF c = Root THEN c' \in {d \in Base : Ok(d) /\ InMode(d)}
            ELSE /\ Len(c.body) < MaxLenOf(c)
@@ -77,8 +77,8 @@ Theorems ==
     /\ ThRefRelations(vs, R)
     /\ ThFixedMeetsRef(vs, R, Outs(vs, Fixed))
     /\ ThAsWrittenDeviatesOnlyIf(vs, R, Outs(vs, AsWritten))
-    /\ ThRenderFixLeavesOnlyTag(vs, R, Outs(vs, OnlyRenderFixed))
     /\ ThRefDefined(vs, R)
+    /\ Mode = "all" => ThRenderFixLeavesOnlyTag(vs, R, Outs(vs, OnlyRenderFixed))
 RefRelations == (c # Root /\ ModelDefined(c)) => LET vs == Variants(c) IN ThRefRelations(vs, Refs(vs))
 FixedMeetsRef == (c # Root /\ ModelDefined(c)) => LET vs == Variants(c) IN ThFixedMeetsRef(vs, Refs(vs), Outs(vs, Fixed))
 AsWrittenDeviatesOnlyIf == (c # Root /\ ModelDefined(c)) => LET vs == Variants(c) IN ThAsWrittenDeviatesOnlyIf(vs, Refs(vs), Outs(vs, AsWritten))
@@ -110,5 +110,5 @@ Export(d, id) ==
                    [name |-> vs[i].name, main |-> PathStr(vs[i].main),
                     files |-> [k \in 1..Len(vs[i].fs) |-> SrcFile(vs[i].fs[k])]]]]
 Cases(x) == LET S == SetToSeq(Space(x) \cup Calib \cup Sample) IN [i \in 1..Len(S) |-> Export(S[i], i)]
-ASSUME Mode = "noexport" \/ ndJsonSerialize("cases.ndjson", Cases(0))
+ASSUME Mode \in {"noexport", "all", "diag"} \/ ndJsonSerialize("cases.ndjson", Cases(0))
 =============================================================================
